@@ -735,6 +735,129 @@ def r12_9(ctx, counts: dict[str, int]) -> RuleResult:
     return res
 
 
+def r12_10(ctx, counts: dict[str, int]) -> RuleResult:
+    """every letter after a backslash is translated, passed through soundly, or rejected"""
+    import string
+    model: Model = ctx.model
+    res = RuleResult(
+        'R12.10', 'ESCAPE-DISPATCH',
+        'Outside brackets translate_pattern dispatches on the character after a backslash with an '
+        'if/elif chain and ends in a pass-through `regex.append("\\%s" % pattern[pos])`. The '
+        'chain is interpreted for each of the 52 ASCII letters: n r t (SingleCharEsc) and d D '
+        '(Python\'s \\d on str is \\p{Nd}) may be passed through; i I c C p P are translated by '
+        'their own branch; s S w W must be translated too, because Python\'s \\s (all Unicode '
+        'white space) and \\w (alphanumerics and "_") are not XSD\'s [ \\t\\n\\r] and '
+        '[^\\p{P}\\p{Z}\\p{C}] — the bracketed forms [\\s] [\\w] are translated by '
+        'CharacterClass and disagree with the bare ones; every other letter is not an XSD escape '
+        'and must reach a `raise RegexError` (Python gives \\a \\f \\v a meaning of its own).')
+    mod = model.module('elementpath.regex.patterns')
+    f = mod.toplevel_function('translate_pattern')
+    if f is None:
+        raise AnalysisError('regex.patterns.translate_pattern vanished')
+    branch = None
+    for st in ast.walk(f.node):
+        if isinstance(st, ast.If) and isinstance(st.test, ast.Compare) \
+                and stmt_text(st.test).replace('"', "'") == "ch == '\\\\'":
+            branch = st
+    if branch is None:
+        raise AnalysisError('translate_pattern: the backslash branch was not located')
+    def chain_tests(st: ast.stmt):
+        while isinstance(st, ast.If):
+            yield st.test
+            st = st.orelse[0] if len(st.orelse) == 1 else None
+    chain = [st for st in branch.body if isinstance(st, ast.If) and any(
+        stmt_text(y) == 'pattern[pos]' for t in chain_tests(st) for y in ast.walk(t))
+        and not any(isinstance(x, ast.While) for x in st.body)]
+    if not chain:
+        raise AnalysisError('translate_pattern: the escape dispatch chain was not located')
+    consts = {'ascii_letters': string.ascii_letters, 'ascii_lowercase': string.ascii_lowercase,
+              'ascii_uppercase': string.ascii_uppercase, 'digits': string.digits}
+    for a_ in mod.tree.body:
+        if isinstance(a_, ast.Assign) and len(a_.targets) == 1 and isinstance(a_.targets[0], ast.Name) \
+                and isinstance(a_.value, ast.Constant) and isinstance(a_.value.value, str):
+            consts[a_.targets[0].id] = a_.value.value
+
+    def ev(e: ast.AST, c: str):
+        if isinstance(e, ast.Constant):
+            return e.value
+        if isinstance(e, ast.Tuple):
+            return tuple(ev(x, c) for x in e.elts)
+        if stmt_text(e) == 'pattern[pos]':
+            return c
+        if isinstance(e, ast.Name) and e.id in consts:
+            return consts[e.id]
+        if isinstance(e, ast.UnaryOp) and isinstance(e.op, ast.Not):
+            return not ev(e.operand, c)
+        if isinstance(e, ast.BoolOp):
+            vs = [ev(v, c) for v in e.values]
+            return all(vs) if isinstance(e.op, ast.And) else any(vs)
+        if isinstance(e, ast.Compare) and len(e.ops) == 1:
+            if stmt_text(e) in ('pos >= pattern_len', 'pos == pattern_len'):
+                return False
+            a, b = ev(e.left, c), ev(e.comparators[0], c)
+            op = e.ops[0]
+            if isinstance(op, ast.In):
+                return a in b
+            if isinstance(op, ast.NotIn):
+                return a not in b
+            if isinstance(op, ast.Eq):
+                return a == b
+            if isinstance(op, ast.NotEq):
+                return a != b
+        if isinstance(e, ast.Call) and isinstance(e.func, ast.Attribute) and not e.args \
+                and e.func.attr in ('isdigit', 'isalpha', 'isalnum', 'isupper', 'islower'):
+            return getattr(ev(e.func.value, c), e.func.attr)()
+        raise AnalysisError(f'escape dispatch: `{stmt_text(e)[:50]}` not interpreted')
+
+    def outcome(c: str) -> str:
+        st: Optional[ast.stmt] = chain[-1]
+        body: list[ast.stmt] = []
+        while isinstance(st, ast.If):
+            if ev(st.test, c):
+                body = st.body
+                break
+            body = st.orelse
+            st = st.orelse[0] if len(st.orelse) == 1 and isinstance(st.orelse[0], ast.If) else None
+        if any(isinstance(x, ast.Raise) for b in body for x in ast.walk(b)) and not any(
+                isinstance(x, ast.Try) for b in body for x in ast.walk(b)):
+            return 'rejected'
+        if any(isinstance(x, ast.BinOp) and isinstance(x.op, ast.Mod)
+               and stmt_text(x.right) == 'pattern[pos]' for b in body for x in ast.walk(b)) \
+                and len(body) == 1:
+            return 'passed'
+        return 'translated'
+    n = 0
+    for c in string.ascii_letters:
+        n += 1
+        out = outcome(c)
+        if c in 'nrtdD':
+            want = ('passed', 'translated')
+        elif c in 'iIcCpPsSwW':
+            want = ('translated',)
+        else:
+            want = ('rejected',)
+        res.instances.append(f'\\{c}: {out} (required: {"/".join(want)})')
+        if out in want:
+            res.ok()
+        elif c in 'sSwW':
+            res.fail(finding('R12.10', f, chain[-1], f'\\{c} passed to Python',
+                             f'the escape \\{c} outside brackets is emitted as Python\'s \\{c}, '
+                             f'which is not the XSD class: \\s is [ \\t\\n\\r] (Python: all Unicode '
+                             f'white space, e.g. U+00A0, U+000C) and \\w is [^\\p{{P}}\\p{{Z}}\\p{{C}}] '
+                             f'(Python: alphanumerics and "_", not "+"); the bracketed form '
+                             f'[\\{c}] is translated by CharacterClass and disagrees'))
+        else:
+            res.fail(finding('R12.10', f, chain[-1], f'\\{c} {out}',
+                             f'\\{c} is {out} by the escape dispatch of translate_pattern but '
+                             f'must be {"/".join(want)}: it is not an XSD escape (an invalid '
+                             f'pattern must raise RegexError; Python gives \\a \\f \\v a meaning '
+                             f'of its own)' if want == ('rejected',) else
+                             f'\\{c} is {out} by the escape dispatch of translate_pattern but '
+                             f'must be {"/".join(want)}'))
+    counts['escape_letters'] = n
+    return res
+
+
 def run(ctx) -> dict:
     counts: dict[str, int] = {}
     from .c13_unicode import r13_3
@@ -746,7 +869,7 @@ def run(ctx) -> dict:
                r13_4(ctx, counts), r12_5(ctx, counts), r13_6(ctx, counts),
                r13_7(ctx, counts), r12_6(ctx, counts),
                r12_7(ctx, counts), r13_9(ctx, counts), r12_8(ctx, counts),
-               r12_9(ctx, counts)]
+               r12_9(ctx, counts), r12_10(ctx, counts)]
     # process-wide state is written only by the reviewed inventory (no new caches)
     from .c19_global import r19_5 as _r19_5
     _state = _r19_5(ctx, counts, lambda f: f.module.name.startswith('elementpath.regex'), 2)
